@@ -247,3 +247,46 @@ func runC10cl(c clCase, o *vfutil.Obs) *vfutil.Failure {
 func TestVerifC10cl(t *testing.T) {
 	vfutil.Run(t, vfutil.Spec[clCase]{ID: "C10", Gen: genC10cl, Run: runC10cl, Summary: clSummary})
 }
+
+// C02e: the leader-epoch history a replica keeps next to its log is what log
+// reconciliation after a leader change is computed from (the follower names its
+// last epoch, the leader answers with where that epoch ends). Retention and
+// compaction trim that history, a reopen reloads it: after every step it must
+// still map every retained message to the epoch the message was written in.
+// Same operations and model as C09, with leader changes (epoch bumps) in a
+// third of the appends; failures are reported for C02.
+func genC02e(t *rapid.T) clCase {
+	c := genC09(t)
+	c.Sig = "C02"
+	for i := range c.Ops {
+		if c.Ops[i].Op == "append" && len(c.Ops[i].Msgs) > 0 && rapid.IntRange(0, 2).Draw(t, "bump") == 0 {
+			c.Ops[i].Msgs[0].EB = true
+		}
+	}
+	if rapid.IntRange(0, 2).Draw(t, "reopen-last") == 0 {
+		c.Ops = append(c.Ops, clOp{Op: "reopen"})
+	}
+	return c
+}
+
+func runC02e(c clCase, o *vfutil.Obs) *vfutil.Failure {
+	var xx *clExec
+	f := runCL(c, o, func(x *clExec, op clOp) (*vfutil.Failure, bool) { xx = x; return nil, false })
+	bumps := 0
+	for _, op := range c.Ops {
+		for _, m := range op.Msgs {
+			if m.EB {
+				bumps++
+			}
+		}
+	}
+	// non-trivial: at least two leader epochs in the log and a clean that removed something
+	if f == nil && xx != nil && bumps >= 2 && xx.nt {
+		o.NonTrivial()
+	}
+	return f
+}
+
+func TestVerifC02e(t *testing.T) {
+	vfutil.Run(t, vfutil.Spec[clCase]{ID: "C02", Gen: genC02e, Run: runC02e, Summary: clSummary})
+}
